@@ -101,3 +101,5 @@ Definition meshgrid_ij (axes : list (list Z)) : list (list Z) :=
 
 Definition flatten_nd (x : list Z) : list Z := x.          (* r.flatten() *)
 Definition reshape_n1 (x : list Z) : list Z := x.          (* u.reshape(-1, 1): the same values as an (n, 1) array *)
+Definition tensor_of (x : list Z) : list Z := x.           (* torch.tensor(x) of a plain sequence: the same numbers *)
+Definition requires_grad (x : list Z) : list Z := x.       (* x.requires_grad_(True): the same values (differentiability is C07's subject) *)
